@@ -3,8 +3,10 @@ package main
 import (
 	"fmt"
 	"math"
+	"math/rand/v2"
 	"os"
 	"sort"
+	"strings"
 	"sync"
 
 	"gonum.org/v1/gonum/verifx/vrt"
@@ -22,9 +24,57 @@ type mon struct {
 	ratioAt map[string]string
 	evals   map[string]int
 	nover   map[string]int
+
+	// nilSrc selects the nil-source pass (set between parallel phases only).
+	nilSrc bool
 }
 
 var debug = os.Getenv("C11_DEBUG") != ""
+
+// src returns the seeded stream (name, idx) or, in the nil-source pass, a nil
+// rand.Source: gonum then draws from the package-global math/rand/v2
+// generator, which cannot be seeded, so such runs are not replayable; their
+// verdicts are DKW bands and exact support/structure checks only, whose
+// false-alarm bound (1e-12 per band) does not depend on any seed.
+func (m *mon) src(name string, idx ...int) rand.Source {
+	if m.nilSrc {
+		return nil
+	}
+	return m.c.RNG(name, idx...)
+}
+
+// rclass decorates a path class for the nil-source pass.
+func (m *mon) rclass(class string) string {
+	if m.nilSrc {
+		return "nil-source"
+	}
+	return class
+}
+
+// tag marks signature and witness of a violation found in the nil-source pass.
+func (m *mon) tag(sig, where string) (string, string) {
+	if !m.nilSrc {
+		return sig, where
+	}
+	p := strings.SplitN(sig, "|", 3)
+	if len(p) == 3 && !strings.HasPrefix(p[1], "nil-source") {
+		if p[1] == "-" || p[1] == "" {
+			p[1] = "nil-source"
+		} else {
+			p[1] = "nil-source," + p[1]
+		}
+		sig = strings.Join(p, "|")
+	}
+	return sig, where + m.rnote()
+}
+
+// rnote is appended to witnesses of the nil-source pass.
+func (m *mon) rnote() string {
+	if m.nilSrc {
+		return " [Src=nil: package-global generator, not seedable, no replay]"
+	}
+	return ""
+}
 
 func newMon(c *vrt.Ctx) *mon {
 	return &mon{
@@ -110,6 +160,7 @@ func (a *acc) near(kind, sig, where string, got, want, tol float64) bool {
 		a.ratioAt[kind] = where
 	}
 	if !(ratio <= 1) {
+		sig, where = a.m.tag(sig, where)
 		a.m.c.Violation(sig, fmt.Sprintf("%s: got %.17g want %.17g |diff| %.3g tol %.3g", where, got, want, err, tol),
 			map[string]any{"case": where, "got": got, "want": want, "tol": tol})
 		return false
@@ -119,6 +170,7 @@ func (a *acc) near(kind, sig, where string, got, want, tol float64) bool {
 
 // fail raises a violation unconditionally.
 func (a *acc) fail(sig, where, format string, args ...any) {
+	sig, where = a.m.tag(sig, where)
 	a.m.c.Violation(sig, where+": "+fmt.Sprintf(format, args...), map[string]any{"case": where})
 }
 
